@@ -401,6 +401,10 @@ fn main() {
         // classes already use internally
         let late_rules = rng.gen_bool(0.35);
         let late_seed: u64 = rng.gen();
+        // boundary node limits (Runner): a dry run of the same configuration without a node limit gives the node count at
+        // the start of every iteration; the limit is then put exactly on one of them, or one off - the places where
+        // `>` / `>=` / `<` in the limit checks make a difference
+        let boundary_pick: Option<(usize, i64)> = if rng.gen_bool(0.4) { Some((rng.gen_range(0..6), *[-1i64, 0, 0, 1].choose(&mut rng).unwrap())) } else { None };
         if std::env::var("VERIF_RW_DEBUG_RUN").ok().and_then(|x| x.parse::<usize>().ok()) == Some(run) { eprintln!("run {run}: {kind} {start_txt} {rule_names:?} iter_limit={iter_limit} node_limit={node_limit} ext={extraction_subst} late={late_rules} late_seed={late_seed} time={time_mode} hook_fail={hook_fail_at:?}"); }
         let st = start_txt.clone();
         let rules2 = rules.clone();
@@ -413,6 +417,20 @@ fn main() {
             subterms(&start, &mut tracked);
             TRACKED.with(|t| *t.borrow_mut() = tracked.clone());
             let mut rws: Vec<Rewrite<A, ConstFold>> = if late_rules { Vec::new() } else { rules2.iter().map(mk_rule).collect() };
+            let node_limit = match (kind, boundary_pick) {
+                ("runner", Some((k, delta))) => {
+                    let eg_dry: EGraph<A, ConstFold> = if extraction_subst { EGraph::with_subst_method::<ExtractionSubst>(ConstFold) } else { EGraph::new(ConstFold) };
+                    let mut dry: Runner<A, ConstFold, IterFp, String> = Runner::new(ConstFold).with_egraph(eg_dry).with_expr(&start)
+                        .with_iter_limit(iter_limit).with_node_limit(100_000)
+                        .with_hook(|r| if r.egraph.total_number_of_nodes() <= 80 { Ok(()) } else { Err("big".to_string()) });
+                    let rws_dry: Vec<Rewrite<A, ConstFold>> = rules2.iter().map(mk_rule).collect();
+                    let mut counts = vec![dry.egraph.total_number_of_nodes()];
+                    dry.run(&rws_dry);
+                    counts.extend(dry.iterations.iter().map(|it| it.data.nodes));
+                    (counts[k % counts.len()] as i64 + delta).max(1) as usize
+                }
+                _ => node_limit,
+            };
             evs.push(json!({"ev":"reset","late_rules":late_rules,"kind":kind,"iter_limit":iter_limit,"node_limit":node_limit,"time_limit_ms":time_limit_ms,"start":st,"rules":rules2.iter().map(|r| r.name.clone()).collect::<Vec<_>>(),
                             "subst": if extraction_subst {"extraction"} else {"synexpr"}}));
             let mut eg: EGraph<A, ConstFold> = if extraction_subst { EGraph::with_subst_method::<ExtractionSubst>(ConstFold) } else { EGraph::new(ConstFold) };
